@@ -2,7 +2,7 @@
 # [TIER=thorough] [PROPS="01 09"] sweep.sh <seed>... -- run inside a `vp run --with-repo` snapshot: every quick check on the unchanged tree under each
 # VERIF_SEED given; prints one line per check, "ALARM" lines for anything that is not quiet.
 R=${VP_RUN_REPO:?needs vp run --with-repo}
-sed -i "s#path = \"/repo\"#path = \"$R\"#" harness/Cargo.toml harness/cfail/Cargo.toml
+sed -i "s#path = \"/repo\"#path = \"$R\"#" harness/Cargo.toml harness/cfail/Cargo.toml harness/probe/Cargo.toml
 cp /repo/Cargo.lock $R/ 2>/dev/null
 export VERIF_REPO=$R CARGO_NET_OFFLINE=true
 ./setup.sh > sweep-setup.log 2>&1
